@@ -587,6 +587,8 @@ func checkC04(in *exInput) []exFinding {
 	g := in.graph()
 	tag := "acyclic"
 	switch {
+	case g.hasTag("id:reldir"):
+		tag = "id-reldir"
 	case g.hasTag("id"):
 		tag = "id"
 	case len(g.Broken) > 0 || len(g.Missing) > 0:
